@@ -2,8 +2,8 @@
 # Run every check against every seeded change (patch applied to /repo, undone afterwards); results go to seeded/<id>/meta.json
 cd "$(dirname "$0")/.."
 ALL="C01 C02 C03 C04 C05 C06 C07 C08 C09 C10 C11 C12 C13 C14 C15 C16 C17 C18 C19 C20"
-for d in seeded/S*; do
+for d in ${SEEDS:-seeded/S*}; do
   echo "=== $d"
   python3 tools/seedtest.py "$d" --skip-validate $ALL 2>&1 | grep -v "^validation" 
 done
-git -C /repo status --short
+git -C "${VERIF_REPO:-/repo}" status --short
